@@ -443,7 +443,10 @@ def parseSignedDataForDeactivate (cfg : Protocol) (compact : String) : Option Si
 
 /-- `getAnchorUntil` (parser side) -/
 def anchorUntil (cfg : Protocol) (frm untl : Int) : Int :=
-  if frm ≠ 0 ∧ untl = 0 then frm + (((cfg.numField Expected.anchorUntilParamParser).getD 0 : Nat) : Int) else untl
+  if frm ≠ 0 ∧ untl = 0 then
+    let s := frm + (((cfg.numField Expected.anchorUntilParamParser).getD 0 : Nat) : Int)
+    if s > 9223372036854775807 then 9223372036854775807 else s   -- int64: the greatest time there is
+  else untl
 
 def guard' (b : Bool) : Option Unit := if b then some () else none
 
